@@ -259,6 +259,14 @@ let rec cexp_of = function
 let rec pstmt_of = function
   | Ls [At "decl"; At x; At t] -> PDeclare (nat_of_int (int_of_string x), vtype_of t)
   | Ls [At "set"; At x; At op; r] -> PSet (nat_of_int (int_of_string x), aop_of op, rexp_of r)
+  | Ls [At "setcat"; At x; At op; Ls items] ->
+      let sign_of = function "_" -> SNone | "+" -> SPlus | "-" -> SMinus | g -> failwith ("sign " ^ g) in
+      let item_of = function
+        | Ls [At g; Ls [At "lit"; Sq h]] -> (sign_of g, RILit (str_of_hex h))
+        | Ls [At g; Ls [At "var"; At y]] -> (sign_of g, RIVar (nat_of_int (int_of_string y)))
+        | Ls [At g; Ls [At "rt"; At d]] -> (sign_of g, RIRTime (z_of_dec d))
+        | y -> failwith ("bad series item " ^ sexp_to_string y) in
+      PSetCat (nat_of_int (int_of_string x), aop_of op, List.map item_of items)
   | Ls [At "if"; c; Ls t; Ls elifs; e] ->
       PIf (cexp_of c, List.map pstmt_of t,
            List.map (function Ls [c'; Ls b] -> (cexp_of c', List.map pstmt_of b) | _ -> failwith "elif") elifs,
@@ -323,6 +331,33 @@ let handle_prog (rest : string) : string =
        | Panicked -> "crash")
   | _ -> failwith "prog request"
 
+(* ---- C07: concatenation series (Model/Concat.v) ----
+   series <item>|<item>|...   item = <sign _ + -><kind>: L<hex> string literal, V<value text> variable, R<ns> RTIME literal, O other
+   a single operand is not a concatenation: the expression is the operand itself *)
+let sitem_of (w : string) : sitem =
+  let sg = (match w.[0] with '_' -> SNone | '+' -> SPlus | '-' -> SMinus | _ -> failwith "sign") in
+  let body = String.sub w 2 (String.length w - 2) in
+  let it = (match w.[1] with
+            | 'L' -> CLit (str_of_hex body)
+            | 'V' -> CVar (val_of body)
+            | 'R' -> CRTimeLit (z_of_dec body)
+            | 'O' -> COther
+            | _ -> failwith "item kind") in
+  { sop = sg; sit = it }
+let handle_series (rest : string list) : string =
+  match rest with
+  | [items] ->
+      let l = List.map sitem_of (split_on '|' items) in
+      let one local =
+        (match l with
+         | [ { sit = CVar v; _ } ] -> "ok:" ^ show_val v
+         | [ { sit = CLit t; _ } ] -> "ok:" ^ show_val (VStr (t, false))
+         | _ -> (match concat_series local l with
+                 | OK v -> "ok:" ^ show_val v
+                 | Err -> "err" | Crash -> "crash" | OutOfFuel -> "outoffuel")) in
+      "nl=" ^ one false ^ " lo=" ^ one true
+  | _ -> failwith "series request"
+
 let handle (req : string) : string =
   match split_on ' ' req with
   | ("acl" | "aclspec" | "aclold" as w) :: rest -> handle_acl w rest
@@ -330,6 +365,7 @@ let handle (req : string) : string =
   | "sim" :: rest -> handle_sim (String.concat " " rest)
   | "inc" :: rest -> handle_inc rest
   | "prog" :: rest -> handle_prog (String.concat " " rest)
+  | "series" :: rest -> handle_series rest
   | _ -> failwith "unknown request"
 
 let () = Common.serve handle
